@@ -178,8 +178,12 @@ class C05(Property):
                         f.write(b'' if spec[1] == '-' else bytes.fromhex(spec[1]))
                     os.chmod(path, spec[0])
             os.umask(case['umask'])
-            kw = dict(overwrite=bool(case['ow']), overwrite_part=bool(case['owp']), rm_part_on_exc=bool(case['rm']),
-                      text_mode=bool(case['txt']))
+            # documented defaults are exercised by omitting the keyword
+            kw = {}
+            for name, val, default in (('overwrite', case['ow'], 1), ('overwrite_part', case['owp'], 0),
+                                       ('rm_part_on_exc', case['rm'], 1), ('text_mode', case['txt'], 0)):
+                if val != default:
+                    kw[name] = bool(val)
             if case['perms'] is not None:
                 kw['file_perms'] = case['perms']
             plan = {k: a for k, a in case['plan']}
